@@ -170,6 +170,17 @@ def accepted_by_backpatch_jump(fx):
         for st in f.blocks[bb]['stmts']:
             if st['k'] == 'assign' and st['rv']['k'] == 'agg' and st['rv'].get('adt') == 'opcodes::Opcode':
                 out.add(st['rv']['variant'])
+    # ... or, when the new instruction is built through a constructor picked by the `match` (`Opcode::Jump as fn(..) -> Opcode`),
+    # the kinds the match on the old instruction lists
+    ovs = [v['name'] for v in (fx.adts.get('opcodes::Opcode') or {}).get('variants', [])]
+    for bb in f.reachable_blocks():
+        t = f.blocks[bb]['term']
+        if t['k'] == 'switch':
+            e = f.expr_of_operand(t['discr'])
+            if isinstance(e, tuple) and e[0] == 'discr' and e[2] == 'opcodes::Opcode':
+                for v, _tg in t['targets']:
+                    if isinstance(v, int) and v < len(ovs):
+                        out.add(ovs[v])
     return out
 
 
@@ -197,9 +208,14 @@ def flow_switches(f):
 def flow_consumers(fx):
     """Flow variant -> functions that match it (from pop_flow/take_first_cond_flow) and call a patcher"""
     cons = {}
+    # a word may patch through a small helper of its own (`patch_jump_to_here(org)`): local functions that reach a patcher count
+    cg = fx.callgraph()
+    via = set(PATCHERS)
+    for _ in range(3):
+        via |= {fn for fn in fx.fns if fn.startswith('state::') and set(cg.get(fn, ())) & via}
     for fn in sorted(fx.fns):
         f = fx.fns[fn]
-        if not any(callee_of(t) in PATCHERS for _, t in f.calls()):
+        if not any(callee_of(t) in via for _, t in f.calls()):
             continue
         for bb, arms, scrut in flow_switches(f):
             s = expr_str(scrut, -20)
